@@ -277,6 +277,9 @@ func runCase(c Case) []ev.Violation {
 		rec.Class("deployment-with-healthy-incompatible-type")
 	}
 	rec.Class("prefix=" + c.Prefix)
+	if strings.Contains(c.Path, "%2") {
+		rec.Class("path-climbs-to-another-prefix-with-encoded-dot-segments")
+	}
 	desc := fmt.Sprintf("engine=%s strategy=%q unlisted-model=%v %s /olla/%s/%s with endpoints %+v -> status %d", c.Engine, c.Strategy, c.Model, c.Method, c.Prefix, c.Path, c.EPs, resp.StatusCode)
 	contacted := 0
 	for i, e := range c.EPs {
@@ -344,6 +347,15 @@ func genCase(t *rapid.T) Case {
 		c.EPs = rapid.Permutation(eps).Draw(t, "order")
 	}
 	c.Path = rapid.SampledFrom(pathsFor(c.Prefix)).Draw(t, "path")
+	// one case in six: the remaining path climbs out of the prefix with percent-encoded dot segments
+	// (which the mux does not clean away) and names another provider's prefix
+	if rapid.IntRange(0, 5).Draw(t, "climb") == 0 {
+		other := rapid.SampledFrom(prefixes).Draw(t, "climb-to")
+		if other != c.Prefix {
+			up := rapid.SampledFrom([]string{"%2e%2e/", "%2E%2E/", "..%2F", "%2e%2e%2f", "x/%2e%2e/%2e%2e/"}).Draw(t, "climb-form")
+			c.Path = up + other + "/" + rapid.SampledFrom(pathsFor(other)).Draw(t, "climb-path")
+		}
+	}
 	// a quarter of the cases: another model-routing strategy, and a model no endpoint lists
 	if rapid.IntRange(0, 3).Draw(t, "strat") == 0 {
 		c.Strategy = rapid.SampledFrom([]string{"discovery/all/refresh", "discovery/all", "optimistic/all", "discovery/compatible_only/refresh", "optimistic/none"}).Draw(t, "strategy")
@@ -517,7 +529,7 @@ func genList(t *rapid.T) ListCase {
 func TestC11(t *testing.T) {
 	loadProfiles(t)
 	defer stopRigs()
-	rec.SetRule("prefixes and compatibility are read from the shipped YAML by the harness's own reader; deployments = endpoint type multisets (every shipped profile name + auto) x health; all deployments of size 1 and (quick: a third of / thorough: all) size-2 deployments are enumerated for every prefix and both engines, size<=3 deployments and provider-native paths are rapid-generated, including endpoints that are listed healthy but refuse connections (so that the request fails over) and the fail-over topology {own type dead, own type live, other type live}; typed recording backends tell which endpoint served. Model-listing routes under each prefix are checked against per-endpoint model sets. non-trivial = deployment containing >=1 healthy endpoint of an incompatible type; distinct by (engine, prefix, deployment, path)")
+	rec.SetRule("prefixes and compatibility are read from the shipped YAML by the harness's own reader; deployments = endpoint type multisets (every shipped profile name + auto) x health; all deployments of size 1 and (quick: a third of / thorough: all) size-2 deployments are enumerated for every prefix and both engines, size<=3 deployments, provider-native paths and paths that climb to another provider's prefix with percent-encoded dot segments are rapid-generated, including endpoints that are listed healthy but refuse connections (so that the request fails over) and the fail-over topology {own type dead, own type live, other type live}; typed recording backends tell which endpoint served. Model-listing routes under each prefix are checked against per-endpoint model sets. non-trivial = deployment containing >=1 healthy endpoint of an incompatible type; distinct by (engine, prefix, deployment, path)")
 	rec.Assume("compatibility relation: type == profile owning the prefix, or auto; for the openai/openai-compatible prefixes every profile with api.openai_compatible: true")
 	if ev.Replay(t, rec, "route", runCase) || ev.Replay(t, rec, "listing", runList) {
 		return
